@@ -231,7 +231,6 @@ def run_collection(cid, docs, allow, strict, via, seed, tracer, tmproot):
 
 O_DRIVER = r'''
 import sys, json, logging
-sys.path.insert(0, "/repo")
 logging.disable(logging.CRITICAL)
 from mosromgr.moscollection import MosCollection
 from mosromgr import exc
@@ -251,7 +250,6 @@ json.dump(out, sys.stdout)
 
 def _worker(args):
     chunk, seed, tmproot = args
-    sys.path.insert(0, "/repo")
     logging.disable(logging.CRITICAL)
     from .tracer import Tracer
     tr = Tracer()
